@@ -833,6 +833,17 @@ def _drive_out(sub, k, binf, args_, strict, start, end, mapaddrs, mapfmt, full, 
                 c['subs'].append(a)
             elif m.group(1) not in 'DEMNRL':
                 c['dirs'].append([m.group(1), a])        # (a letter that is no directive at all is judged as a block directive)
+    # The judge looks at the terminating directive before anything that sna2skool makes of the file.  Without an 'i' at END the last
+    # block runs on to 65535 (tens of thousands of statements per run): the verdict is 'terminator' whatever is in there, so
+    # sna2skool is not run, and what the file itself has beyond END is kept only as far as needed to see that it is there.
+    if end < 65536:
+        for f in ('dirs', 'subs'):
+            far = [x for x in c[f] if (x[1] if f == 'dirs' else x) > end + 16]
+            if len(far) > 32:
+                c[f] = [x for x in c[f] if (x[1] if f == 'dirs' else x) <= end + 16] + far[:16] + far[-16:]
+        if not c['dirs'] or c['dirs'][-1] != ['i', end]:
+            c['sna2skool_not_run'] = 1
+            return c
     # feed it to sna2skool and on to skool2bin (the C01 guarantee for the generated file)
     ctlf = os.path.join(sub, 'g%d.ctl' % k)
     open(ctlf, 'w').write(ctl)
